@@ -315,7 +315,11 @@ def gen(t, tier):
         sc['fault'] = {'errno': t.pick(['EIO', 'ENOSPC', 'EACCES', 'short'])}
         if sc['fault']['errno'] in ('EIO', 'ENOSPC') and t.chance(0.5):
             sc['fault']['sticky'] = True
-    elif b['type'] == 'compact' and t.chance(0.04):
+    if b['type'] == 'file' and b.get('link') and t.chance(0.3):
+        # the configured cache directory leads through a symbolic link to a directory at another depth of the tree
+        # (/var/cache/mapproxy -> /mnt/vol1/data/mapproxy): relative links between tiles must still resolve
+        sc['linked_dir'] = True
+    if b['type'] == 'compact' and not sc['fault'] and t.chance(0.06):
         # the bundles of this cache have grown beyond 4 GiB (40-bit offsets): the history runs on a real tmpfs directory and
         # after the operation with this number every bundle file is extended - sparsely - past the 32-bit limit
         sc['huge'] = {'at': t.choice(min(4, nops)), 'extra': t.pick([1000, 12345, 70000, (1 << 31) + 999])}
@@ -394,7 +398,13 @@ def run(sc, tape):
         state = {'n': 0, 'fired': False}
         with w:
             w.fs.buffer_size = sc['bufsize']
-            if onsim:
+            if onsim and sc.get('linked_dir'):
+                os.makedirs('/simfs/mnt/vol1/data/deep/mapproxy')
+                os.makedirs('/simfs/var')
+                os.symlink('/simfs/mnt/vol1/data/deep/mapproxy', '/simfs/var/cache')
+                cdir = '/simfs/var/cache/tiles'
+                probes['cache_dir_behind_a_symlink'] = 1
+            elif onsim:
                 cdir = C.CACHE_DIR
             else:
                 realdir = _real_dir()
